@@ -143,20 +143,20 @@ MUTANTS = {
         m('trim-int-loop', UC, E('for i in tuple(cache)[:100]: del cache[i]'), 'for i in 100: del cache[i]', 'trim_cache'),
         m('trim-live-iterator', UC, E('        for i in tuple(cache)[:100]: del cache[i]'), '        it = cache.__iter__()\n        for i in range(100): del cache[it.__next__()]', 'trim_cache'),
         m('overlap-kind-0', IX, E('        cache[CASs] = (left_index, 3)'), '        cache[CASs] = (left_index, 0)', 'index_overlap'),
-        m('evict-before-store', CHS, E('            index_cache[key] = index, kind\n            if len(index_cache) > 100: index_cache.pop(index_cache.__iter__().__next__())'), '            if len(index_cache) > 100: index_cache.pop(index_cache.__iter__().__next__())\n            index_cache[key] = index, kind', '_get_index_and_kind'),
         m('memo-differs', CHS, E('            index_cache[key] = index, kind\n'), '            index_cache[key] = kind, index\n', '_get_index_and_kind'),
         m('mutate-handed-out', IX, E('            left_index, right_index = index_overlap(self._chemicals, other._chemicals, [*other_data.nonzero_keys()])\n            self.data[left_index] -= other_data[right_index]'), '            left_index, right_index = index_overlap(self._chemicals, other._chemicals, [*other_data.nonzero_keys()])\n            left_index.sort()\n            self.data[left_index] -= other_data[right_index]', 'mutates-left_index'),
         m('alias-guard-removed', CHS, E('        if alias in dct and dct[alias] is not chemical:\n            raise ValueError(f"alias \'{alias}\' already in use by {repr(dct[alias])}")\n        else:\n            self._index[alias] = self._index[ID]\n            dct[alias] = chemical'), '        self._index[alias] = self._index[ID]\n        dct[alias] = chemical', 'set_alias'),
     ],
     'C11': [
         m('expand-keeps-views', IX, E('            self._data_cache.clear()\n            self._set_cache()'), '            self._set_cache()', 'MaterialIndexer._expand_phases'),
-        m('unlink-keeps-views', ST, E('        imol._data_cache.clear()\n        imol.data = imol.data.copy()'), '        imol.data = imol.data.copy()', 'Stream.unlink'),
+        m('unlink-keeps-views', ST, E('        imol._data_cache = {}\n        imol.data = imol.data.copy()'), '        imol.data = imol.data.copy()', 'Stream.unlink'),
         m('set-flow-multiplies', ST, E('        indexer[key] = np.asarray(data, dtype=float) / factor'), '        indexer[key] = np.asarray(data, dtype=float) * factor', 'Stream.get_flow/set_flow'),
         m('Fmass-setter', ST, E('            self.imol.data *= value/F_mass'), '            self.imol.data *= F_mass/value', 'Stream.F_mass.setter'),
         m('mass-view-input', DV, E('        return value / self.MW[index] # From kg to mol'), '        return value * self.MW[index] # From kg to mol', 'MassFlowDict'),
         m('dimension-wrong-units', ST, E("                name = 'mass'\n                factor = mass_units.conversion_factor(units)"), "                name = 'mass'\n                factor = mol_units.conversion_factor(units)", '_get_flow_name_and_factor'),
         m('no-dimension-error', ST, E("            else:\n                raise DimensionError(\"dimensions for flow units must be in molar, \""), "            elif False:\n                raise DimensionError(\"dimensions for flow units must be in molar, \"", 'no-dimension-error'),
-        m('vol-cache-live-TP', DV, E('            self.cache[index] = (self.TP.copy(), V)\n        return value * V # From mol to m3'), '            self.cache[index] = (self.TP, V)\n        return value * V # From mol to m3', 'VolumetricFlowDict.output'),
+        m('vol-cache-live-TP', DV, E('            self.cache[index] = (self.TP.copy(), phase, V)\n        return value * V # From mol to m3'), '            self.cache[index] = (self.TP, phase, V)\n        return value * V # From mol to m3', 'VolumetricFlowDict.output'),
+        m('vol-cache-ignores-phase', DV, E('        if phase != last_phase or not TP.in_equilibrium(self.TP):\n            V = self.V[index]\n            V = 1000. * (getattr(V, phase) if isinstance(V, PhaseHandle) else V)(*self.TP)\n            self.cache[index] = (self.TP.copy(), phase, V)\n        return value / V'), '        if not TP.in_equilibrium(self.TP):\n            V = self.V[index]\n            V = 1000. * (getattr(V, phase) if isinstance(V, PhaseHandle) else V)(*self.TP)\n            self.cache[index] = (self.TP.copy(), phase, V)\n        return value / V', 'VolumetricFlowDict.input'),
         m('reset-chemicals-keeps-views', IX, E('            self.data = data = SparseVector.from_size(chemicals.size)\n            self._data_cache = {}\n        else:\n            data, self._data_cache = container'), '            self.data = data = SparseVector.from_size(chemicals.size)\n        else:\n            data, self._data_cache = container', 'ChemicalIndexer.reset_chemicals'),
     ],
     'C12': [
@@ -171,6 +171,7 @@ MUTANTS = {
         m('reset-thermo-keeps-views', ST, E("        if hasattr(self, '_streams'):\n            for phase, stream in self._streams.items():\n                stream._imol = self._imol.get_phase(phase)\n                stream._thermo = thermo"), "        if hasattr(self, '_streams'):\n            for phase, stream in self._streams.items():\n                stream._thermo = thermo", 'Stream._reset_thermo'),
     ],
     'C13': [
+        m('unlink-only-clears-shared-cache', ST, E('        imol._data_cache = {}\n        imol.data = imol.data.copy()'), '        imol._data_cache.clear()\n        imol.data = imol.data.copy()', 'still-shared-_data_cache'),
         m('copy-shares-TC', ST, E('        new._thermal_condition = self._thermal_condition.copy()\n        new.reset_cache()\n        new.price = 0'), '        new._thermal_condition = self._thermal_condition\n        new.reset_cache()\n        new.price = 0', 'Stream.copy'),
         m('copy-shares-imol', ST, E('        new._imol = self._imol.copy()\n        if thermo and thermo.chemicals'), '        new._imol = self._imol\n        if thermo and thermo.chemicals', 'Stream.copy'),
         m('flow-proxy-copies-flow', ST, E('        imol.data = self._imol.data\n        new._thermal_condition = self._thermal_condition.copy()'), '        imol.data = self._imol.data.copy()\n        new._thermal_condition = self._thermal_condition.copy()', 'Stream.flow_proxy'),
